@@ -62,7 +62,7 @@ def run(ck):
     try:
         ck.write_generated("RingOrders.lean", gen_ringorders.generate(exe, ck.work))
     except Exception as e:
-        ck.machinery_error("translator failed: %r" % (e,)); return
+        ck.translator_failed("translator failed: %r" % (e,))
     if not ck.build_driver(): return
     explore_line = "explore observed 300 300"
     if ck.replay and "explore " in open(ck.replay if os.path.isabs(ck.replay) else os.path.join(VERIF, ck.replay)).read():
@@ -118,7 +118,8 @@ def run(ck):
     try:
         attrs = header_attributes(ck)
     except Exception as e:
-        ck.machinery_error("translator (ring.h attributes) failed: %r" % (e,)); return
+        ck.translator_failed("translator (ring.h attributes) failed: %r" % (e,))
+        attrs = {}
     ck.cov["header_attributes"] = attrs
     ck.cov["obligations"] += 1
     bad = sorted(n for n, a in attrs.items() if ("PURE" in a or "CONST" in a) and n != "zix_ring_capacity")
